@@ -105,6 +105,10 @@ func runnerCases(rng *rand.Rand, n int, emit core.Emit) {
 		emit("runner", "1+2", fmt.Sprintf("report|%s|10481|00000001|%s|3,hold|%s|%d", a1, hexs("srv"), a1, ms), "24")
 		emit("runner", "-", fmt.Sprintf("call|add!%s/10481/144/1/z!refuse,call|penq!%s!10481!0!1!1!z!z,hold|%s|%d", a1, a1, a1, ms), "24")
 	}
+	// queue items of a goal this release does not know, then ordinary work: every worker must still be available
+	for _, k := range []int{3, 5, 9} {
+		emit("runner", "1+2", fmt.Sprintf("junk|%d,adv1000000000,report|%s|10481|00000001|%s|3,call|add!2.2.2.2:10480/10481/144/1/z!refuse,call|penq!2.2.2.2:10480!10481!0!1!1!z!z", k, a1, hexs("srv")), "24")
+	}
 	// a backlog of nothing but expired probes
 	emit("runner", "1+2", "call|penq!9.9.9.1:1!10480!1!0!1!z!"+fmt.Sprint(world.Epoch.UnixNano()+256)+",call|penq!9.9.9.2:1!10480!0!0!1!z!"+fmt.Sprint(world.Epoch.UnixNano()+512)+",adv1000000000", "24")
 }
